@@ -144,6 +144,8 @@ class Prop(PropBase):
         n, P, L = case["n"], case["P"], case["L"]
         shape = (L,) + sigs.sample_shape(case["cls"], n)
         x = g.standard_normal(shape) + 1j * g.standard_normal(shape)
+        if case["seed"] % 5 == 0:
+            x = x * [1e-9, 1e-12][case["seed"] % 2]              # weak signals: the transforms are linear
         kw = {"pol_type": "linear"} if case["cls"] == "DualPolarizationSignal" else {}
         z = sigs.make(pb, case["cls"], L, case["rate"] * u.Hz, case["t0"], nchan=n, data=x, center_freq=case["cf"] * u.Hz,
                       freq_align=case["al"], **kw)
